@@ -100,6 +100,12 @@ def closed(t=None):
     add("shadow: ct(cond(n<f, u_i, v_i),(i))[1]", C.Indexed(C.ComponentTensor(conditional(lt(n_, f), u[i], v[i]), MI((i,))), MI((FixedIndex(1),))))
     add("shadow: ct(n*u_i,(i))[0]", C.Indexed(C.ComponentTensor(C.Product(n_, u[i]), MI((i,))), MI((FixedIndex(0),))))
     add("shadow: sum_ij (A_ij/(1+tr))*(A_ij/(1+tr)), tr = A_ii", (A[i, j] / (1 + A[i, i])) * (A[i, j] / (1 + A[i, i])))
+    # an indexed tensor (component / list tensor that survives construction) that carries a free index of its own, bound by an enclosing sum:
+    # its expanded components depend on the value of that outer index
+    add("ct with an outer free index: as_vector(|A_ij|, j)[k] v_k u_i", as_tensor(abs(A[i, j]), (j,))[k] * v[k] * u[i])
+    add("list tensor with an outer free index: [A_i0 f, A_i1 g][k] v_k u_i", C.Indexed(C.ListTensor(A[i, 0] * f, A[i, 1] * g), MultiIndex((k,))) * v[k] * u[i])
+    add("ct with an outer free index, fixed component: as_vector(|A_ij|, j)[1] u_i", as_tensor(abs(A[i, j]), (j,))[1] * u[i])
+    add("row of a matrix scaled by u_i, dotted with v: (u_i A_i:) . v", ufl.dot(as_tensor(u[i] * A[i, j], (j,)), v))
     # two different component tensors whose bodies share a sub-expression that binds an index, both indexed by that bound index
     # (whatever an algorithm remembers about the first body must not be assumed of the second)
     S_i = A[i, k] * u[k]                       # sum over k, free i
